@@ -87,6 +87,23 @@ def ctor_sub(chk, rng, w, wid, sym, plan=None):
                                 U(other))},
              {"k": "tu", "e": U(sym)},
              {"k": "bare", "e": ["c", typed(sym), [["s", "12.5"]]]}]
+    # ... also where the conversion is impossible: a unit of the same type
+    # that nothing converts to (types without reference unit), or a unit of
+    # another type
+    same = [u.sym for u in w.units_of(w.units[sym].tname)
+            if not w.convertible(sym, u.sym)]
+    foreign = [u_ for u_ in w.units
+               if w.units[u_].tname != w.units[sym].tname]
+    nc = None
+    if same and (not foreign or rng.random() < 0.6):
+        nc = rng.choice(same)
+    elif foreign:
+        nc = rng.choice(foreign)
+    if nc is not None:
+        steps += [{"k": "pn", "e": ["c", typed(sym), [V("s"), U(nc)]]},
+                  {"k": "pg", "e": ["c", QUANTITY, [V("s"), U(nc)]]},
+                  {"k": "cn", "e": M(["c", typed(sym), [V("s")]], "convert",
+                                     U(nc))}]
     info = dict(world=wid, sym=sym, kind=kind, via=via, x=str(x), other=other)
 
     def judge(obs):
@@ -153,6 +170,20 @@ def ctor_sub(chk, rng, w, wid, sym, plan=None):
                 pu["u"] != other:
             bad.append("parsing with unit %s gives %s, parse-then-convert "
                        "gives %s" % (other, brief(pu), brief(cv)))
+        if nc is not None:
+            pn, pg, cn = obs.get("pn", {}), obs.get("pg", {}), \
+                obs.get("cn", {})
+            chk.count("parse with a unit nothing converts to")
+            chk.count("parse with a unit nothing converts to|%s" %
+                      ("same type" if nc in same else "other type"))
+            want = "UnitConversionError" if nc in same \
+                else "IncompatibleUnitsError"
+            if not is_exc(cn, want):
+                pass        # conversion itself is C01 / C14 business
+            elif not (is_exc(pn, want) and is_exc(pg, want)):
+                bad.append("parse-then-convert to %s raises %s, parsing "
+                           "with that unit gives %s (typed), %s (generic)" %
+                           (nc, want, brief(pn), brief(pg)))
         if bad:
             chk.violation("%s from %s %s via %s: %s" %
                           (sym, kind, x, via, "; ".join(bad[:3])), wit,
@@ -262,7 +293,7 @@ def run(chk, R, tier, seed):
     cases = []
     odd = ["µx", "a b", "x/y", "°X", "Ω", "m²s", "kg·m", "x_1", "a  b", "€"]
     for wi in range(nw):
-        plan, ww = random_plan(rng, noref=False)
+        plan, ww = random_plan(rng, noref=(wi % 2 == 1))
         lin = [t for t in ww.types.values() if t.has_ref]
         for j, sym in enumerate(rng.sample(odd, 4)):
             t = rng.choice(lin)
